@@ -64,17 +64,23 @@ Polling(s) == LazyClient /\ okS.ok /\ app[s].resp /\ (s \in PushIds \/ Started(s
 AutoRespEnabled(s) == Polling(s) /\ rec[Main(s)].hasResp
 AutoResp(s) ==
     /\ AutoRespEnabled(s)
-    /\ Commit([Cur EXCEPT !.rec[Main(s)].hasResp = FALSE])
+    \* RecvStream::new(FlowControl::new(inner.clone())): ref_inc; then the future is dropped: drop_stream_ref (its transition_after unlinks BY ID)
+    /\ Commit(DropStreamRef([Cur EXCEPT !.rec[Main(s)].hasResp = FALSE, !.rec[Main(s)].refCount = @ + 1], Main(s)))
     /\ app' = [app EXCEPT ![s].resp = FALSE, ![s].body = TRUE]
 \* ... or the stream failed (Ready(Err)): the future is dropped
 AutoDropErrEnabled(s) == Polling(s) /\ ~rec[Main(s)].hasResp /\ EnsureRecvOpen(rec[Main(s)].state) # "open"
 AppBusy == \E s \in Ids : (s \in Parents /\ AutoPollPushEnabled(s)) \/ AutoRespEnabled(s) \/ AutoDropErrEnabled(s)
 IdleCloseEnabled == ~HasFiller /\ ConnAlive /\ cn.peerGoAway /\ cn.numSend = 0 /\ cn.numRecv = 0 /\ ~PopEnabled
-ConnBusy == (ConnAlive /\ (ResetDue \/ (wb # "blocked" /\ (PopEnabled \/ IdleCloseEnabled)))) \/ (okS.ok /\ cn.connErr /\ ~cn.dropped)
+\* Prioritize::buffer_pending returns Complete as soon as pop_frame returns None - also when that call only removed dangling entries and a
+\* stream in pending_open could now be admitted (finding P9): the connection task then rests until something else wakes it
+\* (repaired - P9: the loop now goes on while a pending-open stream can be admitted; the rule applies with OldPushBugs only)
+EmptyPop == OldPushBugs /\ hist # <<>> /\ hist[Len(hist)].a[1] = "pop_frame" /\ hist[Len(hist)].ev = <<>>
+ConnBusy == (ConnAlive /\ (ResetDue \/ (wb # "blocked" /\ ((PopEnabled /\ ~EmptyPop) \/ IdleCloseEnabled)))) \/ (okS.ok /\ cn.connErr /\ ~cn.dropped)
 StepOk(x) ==
     LET n == x[1] IN
     \* the connection task drains before the next application / peer / time step
     /\ ConnBusy => n \in {"pop_frame", "clear_expired", "conn_drop", "idle_close"}
+    /\ EmptyPop => n # "pop_frame"
     \* ... then the (eager) client application reacts
     /\ (~ConnBusy /\ AppBusy) => n \in {"auto_poll_push", "auto_resp", "auto_drop"}
     \* while the socket is blocked nothing is written, no SETTINGS is applied (the ACK cannot be buffered), the connection does not end
@@ -159,7 +165,8 @@ View == <<rec, cn, qSend, qOpen, qReset, app, wire, gh, okS, bud, wb>>
 InvAssert == NoAssert                                   \* (S) no panic of the code
 \* (G) the only panics: pop_frame's unwrap of the promised stream (findings P1 - P3), and - debug builds, hostile peer - queue_open of a
 \*     send_reset-created record that already sits in pending_send
-InvAssertKnown == okS.ok \/ okS.why \in {"pp_unwrap", "queue_open_debug_assert"}
+\* (pp_unwrap: with OldPushBugs only - findings P1 - P3 are repaired)
+InvAssertKnown == okS.ok \/ (OldPushBugs /\ okS.why = "pp_unwrap") \/ okS.why = "queue_open_debug_assert"
 InvStructure == okS.ok => Structure                     \* (G)
 InvKept == okS.ok => KeptIffNeeded                      \* (G) C19: no record stays once Stream::is_released holds
 InvBounded == cn.numLocalReset <= ResetMax /\ cn.numLocalErrorReset <= ErrorResetMax     \* (G)
@@ -170,7 +177,7 @@ InvCounters == okS.ok =>                                 \* (G) the counters are
 
 \* client role: (G) the only panic is Counts::inc_num_recv_streams' assert!(can_inc_num_recv_streams()) - pushed response HEADERS beyond the
 \* limit the client advertised (finding P6); the strict form is InvAssert
-InvAssertKnownClient == okS.ok \/ okS.why = "inc_num_recv_streams"
+InvAssertKnownClient == okS.ok \/ (OldPushBugs /\ okS.why = "inc_num_recv_streams")
 \* client role, C05: the application never sees more concurrently active pushed streams than the client advertised
 InvC05client == cn.numRecv <= InitMaxRecv
 InvC09knownClient == gh.c09s \in {"", "PUSH_PROMISE on a parent the server had reset: dropped silently",
@@ -189,8 +196,10 @@ InvC05strict == gh.c05 = ""
 InvC09 == gh.c09 = ""                                   \* (G)
 \* ... an illegal one is always answered (connection error, stream error, or ignored on a stream we had reset)
 InvC09strict == gh.c09s = ""                            \* (S)
-InvC09known == gh.c09s \in {"", "RST_STREAM on a stream that is idle on the wire accepted",
-                                "WINDOW_UPDATE on a stream that is idle on the wire accepted"}       \* (G) the only leniency
+\* (G) the only leniency left: RST_STREAM / WINDOW_UPDATE on an id below next_stream_id that the store does not know and that never reached the
+\*     wire (consumed by a failed push_request, or its PUSH_PROMISE was dropped with the parent's queue / with the forgotten stream)
+InvC09known == gh.c09s \in {"", "RST_STREAM on an id the store does not know (never promised on the wire) accepted",
+                                "WINDOW_UPDATE on an id the store does not know (never promised on the wire) accepted"}
 \* C17 (observation): a promise that reached the wire is resolved: once everything is drained and all handles are gone, the promised
 \* stream was answered to its end or reset (by either side)
 AllHandlesDropped == \A s \in Ids : ~app[s].resp /\ ~app[s].send /\ ~app[s].pp /\ ~app[s].body
